@@ -14,4 +14,4 @@ class ParentMatch(TraverserMatch):
 
     @property
     def remembered_parent(self):
-        return self._remembered_parent.parent
+        return self._remembered_parent.remembered_parent
